@@ -324,6 +324,12 @@ impl<T: Storage> RaftLog<T> {
         if idx == 0 {
             return;
         }
+        // Confirming the current applied index changes nothing. It must not be checked
+        // against `committed`: after a restart the applied index given by the application
+        // can be ahead of the recovered commit index (see `Raft::new`).
+        if idx == self.applied {
+            return;
+        }
         // NOTE: here we must use `commmitted` instead of `min(committed, perssited + max_apply_unpersisted_log_limit)`
         // as the uppper bound because the `max_apply_unpersisted_log_limit` can be adjusted dynamically.
         if idx > self.committed || idx < self.applied {
